@@ -183,6 +183,9 @@ def replay(data):
     if data.get('kind') == 'authoropts':
         from . import authoropts
         return authoropts.replay(data)
+    if 'history' in data:
+        from . import histcheck
+        return histcheck.replay('C06', data)
     if data.get('scenario') == 'handle_pr':
         from . import gitflow as GF
         common.install_common_stubs(common.named_render)
@@ -328,4 +331,7 @@ def check(rep):
     handler_part(rep)
     from . import authoropts
     authoropts.check(rep, 'C06', ['bypass_build_status'])
+    # the gate along histories where the integration tips change between report and evaluation
+    from . import histcheck
+    histcheck.check(rep, 'C06')
 
